@@ -204,6 +204,7 @@ func buildHostileScenario(r *Rng, idx int, maxConns int, endings []string) *Scen
 		if r.Chance(0.4) {
 			// handlers released in the same step give way to each other at synchronisation points
 			sc.Params["yield_pct"] = []int{10, 30, 60}[r.Intn(3)]
+			sc.Params["yield_rounds"] = []int{1, 1, 4, 12}[r.Intn(4)]
 		}
 	}
 	return sc
